@@ -88,8 +88,9 @@ func allSeqs(set []ocomp, k int) []oname {
 	return r
 }
 
-// byteComps: every one of the 256 single-byte values under each type (plus, for the decimal
-// conventions, the 2/4/8-byte shortest forms around the width boundaries).
+// byteComps: every one of the 256 single-byte values under each type, multi-byte values mixing
+// the escape-relevant characters, and, for the decimal conventions, the 2/4/8-byte shortest forms
+// around the width boundaries.
 func byteComps() []ocomp {
 	var r []ocomp
 	types := []uint64{1, 2, 8, 0x20, 0x32, 0x34, 0x36, 0x38, 0x3a, 253, 65535}
